@@ -14,12 +14,12 @@ import (
 type intrinsicFn func(in *Interp, g *Goroutine, c *callCtx) (Value, int)
 
 type callCtx struct {
-	fn    *ssa.Function // may be nil for builtins
-	name  string
-	args  []Value
-	instr ssa.Instruction // call site (may be nil)
+	fn     *ssa.Function // may be nil for builtins
+	name   string
+	args   []Value
+	instr  ssa.Instruction // call site (may be nil)
 	common *ssa.CallCommon
-	fr    *Frame
+	fr     *Frame
 }
 
 const (
